@@ -124,8 +124,10 @@ def setup(scratch):
     _state["bt"] = factory.transport
     _state["base_path"] = factory.base_path
     _state["chroot_url"] = factory.cleanups[0].__self__.get_url()
-    _model_env["homes"] = dict(_state["homes"])
-    _model_env["base_path"] = factory.base_path
+    _model_env["T"] = T
+    # the Coq side (Model/Jail.v: run_case_T / std_homes) derives base_path and the user database from T
+    if factory.base_path != T + "/" + S + "/":
+        raise RuntimeError("unexpected base_path %r" % (factory.base_path,))
 
 
 def teardown():
@@ -203,7 +205,7 @@ def cases(rng, tier):
             p = b"".join(toks)
             yield _path_case("/", p, True)
             yield _path_case("/", p, False)
-    nrand = 1500 if tier == "quick" else 60000
+    nrand = 1500 if tier == "quick" else 30000
     alpha = CORE * 3 + MORE
     for _ in range(nrand):
         n = rng.randint(1, 7)
@@ -321,10 +323,8 @@ def model_term(inp):
     if inp["kind"] == "jail":
         allowed = f"(Some [(0%N, {_segs(inp['root'])})])" if inp["jail"] else "None"
         return f"run_jail {allowed} ({coq_N(inp['server'])}, {_segs(inp['target'])})"
-    homes = coq_list(["(%s, %s)" % (_cb(k), _cb(v)) for k, v in _model_env["homes"].items()])
     fixed = coq_bool(bool(os.environ.get("C31_REPAIRED")))
-    return (f"run_case {_cb(_model_env['base_path'])} {homes} {fixed} {coq_bool(inp['vfs'])} "
-            f"{_cb(inp['rcp'])} {_cb(inp['path'])}")
+    return f"run_case_T {_cb(_model_env['T'])} {fixed} {coq_bool(inp['vfs'])} {_cb(inp['rcp'])} {_cb(inp['path'])}"
 
 
 def impl_obs(inp, obs):
